@@ -77,6 +77,11 @@ func (c06) Gen(tier string, seed int64, emit0 func([]Ev)) {
 			case 2:
 				// the program map section of another program carried on the same PID in front of it
 				before = append(before, pmtSection(randPMT(r, 1+r.Intn(3), false)))
+			case 3:
+				// very short complete sections (section_length 0..3) in front of it
+				for k := 1 + r.Intn(2); k > 0; k-- {
+					before = append(before, shortSection(r, r.Intn(4)))
+				}
 			}
 			bev := [][]int{}
 			for _, b := range before {
@@ -160,6 +165,9 @@ func (c06) Gen(tier string, seed int64, emit0 func([]Ev)) {
 						continue
 					}
 				}
+				if !c06CutsOK(frags, ptr, before) {
+					continue
+				}
 				pk := packetise(r, pl, frags, pid, fi%2 == 0)
 				// interleave packets of other PIDs (never the PMT PID)
 				var all []packet.Packet
@@ -193,6 +201,31 @@ func (c06) Gen(tier string, seed int64, emit0 func([]Ev)) {
 		}
 		emit([]Ev{{"op": "th", "tid": r.Intn(256), "ssi": r.Intn(2) == 0, "priv": r.Intn(2) == 0, "slen": sl}})
 	}
+}
+
+// c06CutsOK: no packet boundary falls exactly behind a complete section that precedes the PMT section (the next
+// section would start in a packet without payload_unit_start_indicator, which ISO 13818-1 2.4.4 forbids - and the
+// completion predicate is, rightly, true at such a boundary).
+func c06CutsOK(frags []int, ptr int, before [][]byte) bool {
+	bad := map[int]bool{}
+	pos := 1 + ptr
+	for _, b := range before {
+		pos += len(b)
+		bad[pos] = true
+	}
+	cum := 0
+	for k := 0; k+1 < len(frags); k++ {
+		cum += frags[k]
+		if bad[cum] {
+			return false
+		}
+	}
+	for _, f := range frags {
+		if f < 1 || f > 184 {
+			return false
+		}
+	}
+	return true
 }
 
 // c06FuzzHistory draws one program map section, one carriage of it and the two parsing calls from r (which may be
@@ -242,6 +275,17 @@ func c06FuzzHistory(r *rand.Rand) []Ev {
 		frags = append(frags, k)
 		rest -= k
 		cum += k
+	}
+	if !c06CutsOK(frags, ptr, before) {
+		frags = splitSizes(n, minInt(n, 184)) // full packets; if even that cuts behind a preceding section, drop those sections
+		if !c06CutsOK(frags, ptr, before) {
+			before, bev = nil, [][]int{}
+			base["before"] = bev
+			e1["payload"] = B(c06Payload(ptr, before, sec, stuff))
+			pl = c06Payload(ptr, before, sec, 0)
+			n = len(pl)
+			frags = splitSizes(n, minInt(n, 184))
+		}
 	}
 	pid := 0x30 + r.Intn(0x1000)
 	pk := packetise(r, pl, frags, pid, r.Intn(2) == 0)
